@@ -187,11 +187,11 @@ pub fn property() -> Property {
         assumptions: vec!["RefAsm byte offsets are the reference for op_indices"],
         health: vec![],
         subs: vec![
-            prop_sub("map.bytes", 15_000, 800_000, |_| bytes_case(), oracle_bytes),
+            prop_sub("map.bytes", 150_000, 1_200_000, |_| bytes_case(), oracle_bytes),
             prop_sub(
                 "map.exec_equiv",
-                10_000,
-                400_000,
+                100_000,
+                800_000,
                 |_| {
                     prop_oneof![
                         3 => cases::exec_case(programs::structured(programs::StructCfg::default()), false).boxed(),
